@@ -11,6 +11,7 @@ generated pair, not proved.
 -/
 import Pastel.RealInst
 import Pastel.Model.DeltaE
+import Pastel.Lemmas.SharmaEq
 import Mathlib.Analysis.InnerProductSpace.PiL2
 
 namespace Pastel.C11
@@ -177,5 +178,50 @@ theorem ciede2000_symm (p q : Lab3 ℝ) : ciede2000 p q = ciede2000 q p := by
   congr 1
   norm_num
   ring
+
+/-! ### The code's formula IS the paper's formula (exact arithmetic)
+
+`ciede2000` (the model of `src/delta_e.rs`, written in the code's operation order) and
+`ciede2000Sharma` (written from eq. (2)–(22) of Sharma, Wu & Dalal) are two different texts:
+`a + a/2·(1−√…)` against `(1+G)·a`, the zero-chroma test on the *unprimed* chromas against the
+test `C'₁C'₂ = 0`, a three-way against a four-way mean hue, `h'₁+h'₂` against half of it when a
+chroma vanishes, `R_T` with `60·exp` against `2·(30·exp)`.  For every pair of Lab triples outside
+one branch they denote the same real number.  The excluded branch (`WrapHigh`: hue difference
+above 180° and hue sum at least 360°) is where the code's mean hue is the paper's plus 360°:
+`T` is 360-periodic (`upcaseT_periodic`) but `Δθ = 30·exp(−((h̄'−275)/25)²)` is not, so there the
+two differ by a rotation term below 2·sin(2·30·e^(−11.56)°) ≈ 1.2·10⁻⁵ — inside the property's
+0.001, decided numerically by the correspondence, not proved. -/
+
+theorem ciede2000_eq_sharma_partial (p q : Lab3 ℝ) (hw : ¬ SharmaEq.WrapHigh p q) :
+    ciede2000 p q = ciede2000Sharma p q :=
+  SharmaEq.ciede2000_eq_sharma_of_not_wrapHigh p q hw
+
+/-- The zero-chroma test on the unprimed chroma (code) and on the primed chroma (paper) agree:
+`a' = a·(1 + G)` with `1 + G ≥ 1`. -/
+theorem zero_chroma_tests_agree (a b k : ℝ) (hk : 0 ≤ k) :
+    ScT.sqrt (powi a 2 + powi b 2) = 0 ↔ ScT.sqrt (powi (a + a / 2.0 * k) 2 + powi b 2) = 0 :=
+  SharmaEq.chroma_zero_iff a b k hk
+
+/-- The hue-difference case split of the code (`h₂ ≤ h₁`) and of the paper (`h₂ − h₁ > 180`)
+select the same value for every pair of angles — including a difference of exactly 180°. -/
+theorem hue_difference_cases_agree (h1 h2 : ℝ) :
+    (if Sc.abs (h2 - h1) ≤ (180.0 : ℝ) then h2 - h1 else if (180.0 : ℝ) < h2 - h1 then h2 - h1 - 360.0 else h2 - h1 + 360.0)
+      = (if Sc.abs (h1 - h2) ≤ (180.0 : ℝ) then h2 - h1 else if h2 ≤ h1 then h2 - h1 + 360.0 else h2 - h1 - 360.0) :=
+  SharmaEq.dh_eq h1 h2
+
+/-- `powi` (compiler-rt's square-and-multiply loop) is the power function, for every exponent. -/
+theorem powi_is_pow (x : ℝ) (n : ℕ) (hn : n < 2 ^ 64) : powi x n = x ^ n := SharmaEq.powi_eq x n hn
+
+/-- Non-vacuity: two grays are outside the excluded branch. -/
+example : ¬ SharmaEq.WrapHigh ⟨50, 0, 0⟩ ⟨60, 0, 0⟩ := by
+  intro h
+  have h1 := h.1
+  have e : ∀ k : ℝ, getHPrime (0 : ℝ) (0 + 0 / 2.0 * k) = 0 := by
+    intro k
+    unfold getHPrime
+    have : (0 : ℝ) + 0 / 2.0 * k = 0 := by norm_num
+    rw [this]; norm_num [real_feq]
+  simp only [SharmaEq.primedHues, e] at h1
+  norm_num at h1
 
 end Pastel.C11
